@@ -296,7 +296,17 @@ func init() {
 			}
 			return in.call(p.Func("convertAssign"), nil, []Value{a[0], a[1]}, c)
 		},
-		"Fail": func(in *Interp, _ *ssa.Function, a []Value, _ *frame) Value {
+		// Memo caches the (concrete, read-only) result of f across paths and worlds.
+	"Memo": func(in *Interp, _ *ssa.Function, a []Value, c *frame) Value {
+		key := mustStr(a[0], "Memo key")
+		if v, ok := in.env.memo.Load(key); ok {
+			return v
+		}
+		v := in.callFunc(a[1], nil, c)
+		in.env.memo.Store(key, v)
+		return v
+	},
+	"Fail": func(in *Interp, _ *ssa.Function, a []Value, _ *frame) Value {
 			in.violate(mustStr(a[0], "fail label"), "")
 			panic(pathAbort{"violation", "Fail"})
 		},
@@ -306,6 +316,9 @@ func init() {
 func (in *Interp) assertT(c *Term, label string) {
 	in.nAsserts++
 	if c.isTrue() {
+		return
+	}
+	if sc := in.e.simp(c); sc.isTrue() {
 		return
 	}
 	if c.isFalse() {
@@ -1103,6 +1116,15 @@ func (in *Interp) atoi(s strV, bits int, signed bool) Value {
 			return tupleV{bv(64, uint64(n)), numErr()}
 		}
 		return tupleV{bv(64, uint64(n)), iface{}}
+	}
+	// a concrete non-digit byte (other than a leading sign) decides the outcome
+	for i, b := range s {
+		if b.isConst {
+			c := byte(b.c)
+			if (c < '0' || c > '9') && !(i == 0 && len(s) > 1 && (c == '+' || c == '-')) {
+				return tupleV{bv(64, 0), numErr()}
+			}
+		}
 	}
 	if len(s) == 0 || len(s) > 18 {
 		if len(s) == 0 {
